@@ -39,6 +39,12 @@ class Judge:
         athlib = self.athlib
         before = H.snap(c); st0 = c.state
         want = ref.allowed(op)
+        # attempts already on the card at the current height, read off the card itself (no referee involved)
+        ncell = None
+        if op[0] == 'trial':
+            for j in c.jumpers:
+                if j.bib == str(op[1]):
+                    ncell = len(j.attempts_by_height[-1]) if c.heights and len(j.attempts_by_height) == len(c.heights) else 0
         out = H.apply_op(athlib, c, op)
         after = H.snap(c)
         hist = ops_so_far + [op]
@@ -59,6 +65,10 @@ class Judge:
                 fail('state only moves forward', '%s -> %s' % (st0, c.state), 'phase went backwards')
             if not ref.fuzzy and c.state != ref.phase:
                 fail('state %s' % ref.phase, c.state, 'wrong state after an accepted call')
+        if out == 'ok' and ncell is not None and ncell >= (1 if st0 == 'jumpoff' else 3):
+            # the clause as such (theorems C02_attempts_at_height / C02_jumpoff_accepted_iff: holds in every reachable state of the model)
+            fail('at most three attempts at a height, one in a jump-off: refused', 'accepted as attempt number %d at this height (state %s)' % (ncell + 1, st0),
+                 'more attempts at a height than the rules give')
         if st0 in ('finished', 'drawn') and out == 'ok':
             fail('nothing is accepted once finished or drawn', out, 'accepted in a terminal state')
         return out, out + '|' + after
@@ -166,8 +176,13 @@ def run(ctx):
             lines.append(H.op_line(op)); expect.append(line); meta.append((ops_so_far, op))
             return out
         tie_heavy = (w % 2 == 0)
-        H.gen_competition(rng, athlib, nath=rng.randint(2, 4), nheights=rng.randint(1, 3), jo_heights=4,
-                          att_choice=(lambda g: g.choice(['o', 'o', 'o', 'xo', 'xxx', 'xxx'])) if tie_heavy else None,
+        # every third competition also has passes inside the jump-off (the referee abstains from then on; the model does not):
+        # the way to "everybody out with a single leader" inside a jump-off, where that leader alone is re-instated
+        jo_pass = (w % 3 == 1)
+        H.gen_competition(rng, athlib, nath=rng.randint(2, 4) if not jo_pass else rng.randint(2, 3), nheights=rng.randint(1, 3),
+                          jo_heights=6 if jo_pass else 4,
+                          att_choice=(lambda g: g.choice(['o', 'o', 'o', 'xo', 'xxx', 'xxx'])) if (tie_heavy or jo_pass) else None,
+                          jo_letters=('oxrp', [4, 5, 1, 4]) if jo_pass else ('oxr', [4, 5, 1]),
                           on_call=on_call, probes=True)
     ctx.stats['structured_competitions'] = nstruct
     # ---- correspondence with the Lean model ---------------------------------------------------------
